@@ -375,6 +375,56 @@ fn gen(a: &Args) {
         for _ in 0..2 {
             o.op(&format!("read {}", hex(&render_variant(&mut r, &recs))));
         }
+        // raw reader states: an unescaped soup in place of one string field of the first row
+        if n > 0 {
+            let mut out: Vec<u8> = b"# SOURMASH-MANIFEST-VERSION: 1.0\n".to_vec();
+            out.extend(HEADER.join(",").as_bytes());
+            out.push(b'\n');
+            let victim = *r.pick(&[0usize, 1, 4, 9, 10]);
+            for (ri, rec) in recs.iter().enumerate() {
+                for i in 0..11 {
+                    if i > 0 {
+                        out.push(b',');
+                    }
+                    let f: Vec<u8> = match i {
+                        3 | 5 | 6 | 7 | 8 => rec[i].as_bytes().to_vec(),
+                        _ => unhex(&rec[i]),
+                    };
+                    if ri == 0 && i == victim {
+                        for _ in 0..r.below(6) {
+                            out.extend(match r.below(12) {
+                                0..=3 => "\"",
+                                4 | 5 => "a",
+                                6 => "#",
+                                7 => " ",
+                                8 => "\r",
+                                9 => ",",
+                                10 => "\n",
+                                _ => "é",
+                            }.as_bytes());
+                        }
+                    } else {
+                        let special = f.iter().any(|b| b",\"\r\n#".contains(b));
+                        if special {
+                            out.push(b'"');
+                            for &b in &f {
+                                if b == b'"' {
+                                    out.push(b'"');
+                                }
+                                out.push(b);
+                            }
+                            out.push(b'"');
+                        } else {
+                            out.extend(&f);
+                        }
+                    }
+                }
+                if ri + 1 < recs.len() || r.chance(1, 2) {
+                    out.push(b'\n');
+                }
+            }
+            o.op(&format!("read {}", hex(&out)));
+        }
         if n > 0 {
             for _ in 0..2 {
                 let pickn = |r: &mut Rng| -> Vec<u64> { (0..r.range(0, n)).map(|_| r.below(n)).collect() };
